@@ -225,6 +225,35 @@ def id_class(i):
 
 KNOWN = {"jsonrpc", "id", "method", "params"}
 
+# objects tagged with the name of a model, as they may appear (at any depth) in params
+GOOD_MODELS = [
+    {"__model__": "Artist", "name": "n"}, {"__model__": "Ref", "uri": "u", "type": "track"},
+    {"__model__": "Track", "artists": [{"__model__": "Artist"}], "album": {"__model__": "Album", "date": "2020"}},
+    {"__model__": "TlTrack", "tlid": 1, "track": {"__model__": "Track"}, "junk": 1},
+    {"__model__": "Playlist", "tracks": [{"__model__": "Track", "length": -1}], "last_modified": "12"},
+    {"__model__": "Image", "uri": "u", "width": True}, {"__model__": "SearchResult"},
+    {"__model__": "Bogus", "x": 1}, {"__model__": 5}, {"__model__": None, "uri": "x"},
+]
+BAD_MODELS = [
+    {"__model__": "Artist", "name": 5}, {"__model__": "Artist", "junk": 1}, {"__model__": "Ref", "uri": "u"},
+    {"__model__": "Ref", "uri": "u", "type": "nope"}, {"__model__": "TlTrack", "tlid": 1},
+    {"__model__": "TlTrack", "tlid": 0, "track": {}}, {"__model__": "Album", "num_tracks": -1},
+    {"__model__": "Track", "album": {"__model__": "Artist"}}, {"__model__": "Image"},
+    {"__model__": "Playlist", "tracks": None}, {"__model__": "Album", "date": "2020-1-1"},
+    {"__model__": "Artist", "musicbrainz_id": "zz"},
+]
+
+
+def has_bad_model(v):
+    if isinstance(v, dict):
+        return v in BAD_MODELS or (v.get("__model__") not in CLASS_NAMES and any(has_bad_model(x) for x in v.values()))
+    if isinstance(v, list):
+        return any(has_bad_model(x) for x in v)
+    return False
+
+
+CLASS_NAMES = ("Ref", "Image", "Artist", "Album", "Track", "TlTrack", "Playlist", "SearchResult")
+
 
 def element_class(j):
     """Spec-level classification of one request element.
@@ -244,7 +273,7 @@ def element_class(j):
     if "params" in j and not isinstance(j["params"], list | dict):
         return "invalid"
     i = j.get("id")
-    if isinstance(i, list | dict) or set(j) - KNOWN:
+    if isinstance(i, list | dict) or set(j) - KNOWN or has_bad_model(j.get("params")):
         return "invalid_by_model"
     if isinstance(i, bool):
         return "grey"
@@ -327,6 +356,8 @@ def escape_cause(parsed_ok, parsed, kind):
                 causes.add("id_array_or_object")
             if set(j) - KNOWN:
                 causes.add("unknown_member")
+            if has_bad_model(j.get("params")):
+                causes.add("invalid_model_param")
         elif element_class(j) in ("strict", "grey") and j.get("id") is not None:
             name = j["method"].rsplit(".", 1)[-1]
             if name == "uns":
@@ -334,7 +365,7 @@ def escape_cause(parsed_ok, parsed, kind):
             if name in ("te_bad", "oth_bad"):
                 causes.add("unserializable_error_message")
     if kind == "EValidation":
-        causes &= {"id_array_or_object", "unknown_member"}
+        causes &= {"id_array_or_object", "unknown_member", "invalid_model_param"}
     elif kind == "ESerialization":
         causes &= {"unserializable_result", "unserializable_error_message"}
     return "+".join(sorted(causes)) or "unexplained"
@@ -428,6 +459,8 @@ def gen_json(rng, depth=3):
                            Raw("1e400"), Raw("-1e400"), Raw("NaN"), Raw("1E2"), Raw("1e-400")])
     if k == "str":
         return rng.choice(["", "x", "2.0", "jsonrpc", "o.pub", "é", "\U0001F600", "a\nb", "\\", '"', "\x00", "__model__"])
+    if depth and rng.random() < 0.12:
+        return rng.choice(GOOD_MODELS) if rng.random() < 0.7 else rng.choice(BAD_MODELS)
     if k == "arr":
         return [gen_json(rng, depth - 1) for _ in range(rng.randint(0, 3))]
     keys = ["jsonrpc", "method", "id", "params", "a", "b", "", "__model__", "uri", "é"]
